@@ -95,6 +95,18 @@ impl SimFileServer {
         }
     }
 
+    /// Handles a host registered earlier for its own purposes: they occupy
+    /// handle numbers and name nothing the assembler will ask for.
+    pub fn add_placeholder_handles(&mut self, n: usize) {
+        for i in 0..n {
+            let name = format!("\u{1}host-file-{}", i);
+            let h = self.handles.len();
+            self.handles.insert(name.clone(), h);
+            self.handles_to_filename.push(name);
+            self.std_files.push(Some(""));
+        }
+    }
+
     pub fn add_std_files(&mut self, entries: &[(&str, &'static str)]) {
         for (filename, contents) in entries {
             let filename = filename.to_string();
